@@ -150,6 +150,10 @@ fn sep(rng: &mut Rng, wild: bool) -> &'static str {
     if !wild {
         return " ";
     }
+    // (a line break is white space like any other: now and then an operand continues on the next line)
+    if rng.chance(1, 12) {
+        return *rng.pick(&["\n", ",\n  ", " \n\t"]);
+    }
     *rng.pick(&[" ", ", ", ",", " , ", "\t", "  ", ",\t", ", ,"])
 }
 
